@@ -28,7 +28,7 @@ def expected_uncovered(w, h):
     u = []
     if h < 10:
         u.append("sample changed by horizontal-edge pass only")
-    if w < 10:
+    if w < 10 or h == 0:
         u.append("sample changed by vertical-edge pass only")
     if w < 10 or h < 10:
         u.append("corner sample filtered twice")
